@@ -476,13 +476,26 @@ func (p *c07) Run(c *verifsim.Chooser, st *Stats, render bool) *Outcome {
 			if render {
 				hist = append(hist, map[string]interface{}{"edit": how, "new_script": nt, "prepare": fmt.Sprint(err, esc)})
 			}
-			if err != nil || esc != nil {
-				// (whether a failed Prepare leaves the evaluator usable is C08's
-				// business; the history ends here)
+			if esc != nil {
 				st.probe("edit-did-not-prepare")
 				break
 			}
-			st.fault("script-edited@main")
+			if err != nil {
+				// "if this call fails the evaluator keeps the program it had"
+				// (Prepare's own words): the host puts the old text back into
+				// the field and goes on using the evaluator, which must still
+				// behave like a new one for the old text
+				if _, ferr, fesc := newSide(nt, opt); ferr == nil && fesc == nil {
+					o.violate("C07/diverged", "after=script-edit@main obs=prepare", "a text (%s) that a new evaluator prepares is rejected by the much-used one: %v", how, err)
+					break
+				}
+				L.e.Script = text
+				st.fault("script-edit-rejected@main")
+				lastFault, lastWhere = "script-edit-rejected", "main"
+				nt = text
+			} else {
+				st.fault("script-edited@main")
+			}
 			text = nt
 			globals, scoped = analyseNames(text)
 			globals = append(globals, "g0", "g1", "g2", "g3")
